@@ -122,6 +122,8 @@ var templates = []string{
 	"function vbar (a: int, b: str [x]) { out $a $b }\nvbar %s %s",
 	"function vbar (a: int \"d\", !b: bool) { out $a }\nvbar %s",
 	"pipe vp1\n!pipe vp1\n!pipe vp1", "pipe vp1\npipe vp1\n!pipe vp1", "!pipe vp2", "pipe vp1\nout x -> <vp1>\n!pipe vp1\n<vp1>",
+	// a pipe whose constructor fails, then ordinary named-pipe use
+	"pipe vp1 --tcp-dial 127.0.0.1:1\npipe vp1\n!pipe vp1", "pipe vp1 --file /no/such/dir/f\npipe vp2\n!pipe vp2", "pipe vp1 --badflag\n!pipe vp1\nruntime --named-pipes",
 
 	"vfoo = %s\n$vfoo.a.b = %s\nout $vfoo", "vfoo = %s\nout $vfoo[%s]", "vfoo = %s\nout @vfoo[%s]", "vfoo = %s\n$vfoo -> [%s]",
 	"set %s vfoo = %s", "global %s vfoo = %s", "(%s %s %s)", "(%s)", "out ${%s}", "out @{%s}", "out \"${ %s }\"",
